@@ -22,7 +22,8 @@ EQUIV = {"PV.Equiv.TranslatedSources": ["get_config_path_eq", "get_platforms_fil
                                         "get_uris_and_open_func_eq", "choose_lines", "read_tle_choose"],
          "PV.Equiv.TranslatedInit": ["read_tle_lines", "read_tle_source"]}
 RULE = ("exhaustive product {line1/line2: both, line1 only, line2 only, none} x {tle_file: None, path, StringIO, admin-message "
-        "XML, '', and the given sources that yield nothing: admin message without <navigation>, admin message with another "
+        "XML, '', a path that is a named pipe (fed by a writer thread while the call runs), a path that is a symbolic link to "
+        "a file, and the given sources that yield nothing: a path that does not exist, a dangling symbolic link, admin message without <navigation>, admin message with another "
         "satellite's elements only, empty file, file holding only the name line, file / StringIO without the platform, empty "
         "StringIO} x {TLES: unset, three directories of three files whose newest (by ctime) is the lexicographically last / "
         "first / middle one, a pattern matching nothing, ''} x {PYORBITAL_CONFIG_PATH: unset, dir with platforms.txt, "
@@ -40,7 +41,13 @@ RULE = ("exhaustive product {line1/line2: both, line1 only, line2 only, none} x 
         "older directory besides the files; further PYORBITAL_CONFIG_PATH values (table CFG_SPECS): relative to the working "
         "directory (plain, ./, trailing /, .., nested, '.' from inside the directory), absolute with trailing / and .., "
         "relative directories without the file / not existing; PPP_CONFIG_DIR also as a relative path; 16 x 4 = 64 "
-        "children; distinct = (lines, tle_file, TLES, config path, ppp)")
+        "children; EVERY cell is run through every public entry point that takes these arguments - tlefile.Tle(...), "
+        "tlefile.read(...), orbital.Orbital(...).tle, each in keyword and in positional spelling - and each must take its "
+        "elements from the statement's source (the constructor in keyword spelling is the one compared with the model); "
+        "plus 5 x 4 children whose PYORBITAL_CONFIG_PATH directory holds a platforms.txt at an edge of the file format "
+        "(zero bytes, comment lines only, blank lines only, one entry without a final newline, CRLF line ends): the registry "
+        "must be the content of THAT file (an empty registry for the first three), with a reduced source product; "
+        "distinct = (lines, tle_file, TLES, config path, ppp)")
 ASSUMPTIONS = ["strings are abstracted to the classes the code distinguishes: tle_file None / falsy / StringIO / str containing "
                "'ADMIN_MESSAGE' / other str; TLES unset / '' / a pattern with its glob result",
                "ctimes compared as the floats os.path.getctime returns (passed to the model as the order-preserving bit pattern)",
@@ -56,7 +63,15 @@ ASSUMPTIONS = ["strings are abstracted to the classes the code distinguishes: tl
                "a TLES pattern that matches a directory is exercised only where the directory is older than the newest matching "
                "file (what a newest matching directory should mean is left open by 'newest file')",
                "an exception (or interpreter exit) raised by `import pyorbital.tlefile` in a fresh interpreter is read as "
-               "'no registry in this environment' (the registry is built at import)"]
+               "'no registry in this environment' (the registry is built at import)",
+               "'that directory holds a platforms.txt' is read as: a directory entry of that name that is a file, whatever its "
+               "size or content; the registry then is what the file lists (name ... number per line, '#' comment lines), "
+               "possibly nothing",
+               "'the given file' is read as: the path that was given, whether it names a regular file, a named pipe or a "
+               "symbolic link; a path that names nothing is a configured source that yields nothing (an exception, zero "
+               "network requests, no other source consulted)",
+               "the children share compiled byte code through PYTHONPYCACHEPREFIX inside the experiment's directory and run "
+               "numpy's thread pools with one thread (the registry and the sources do not depend on either)"]
 TRUSTED = ["model: PV.Model.Sources (hand-written from tlefile.py _read_tle, _get_uris_and_open_func, _get_config_path, "
            "get_platforms_filepath), tied by the exhaustive product with the chosen URIs/open function recorded at "
            "_get_uris_and_open_func and the registry read in fresh interpreters"]
@@ -97,11 +112,20 @@ def tagged(num):
     return l1, BASE2
 
 
-TAGS = {"L": 101, "P": 102, "S": 103, "X": 104, "N": 105}
+TAGS = {"L": 101, "P": 102, "S": 103, "X": 104, "N": 105, "F": 106, "K": 107}
 LINES_KINDS = ["both", "l1", "l2", "none"]
+# Every public way of handing (platform, tle_file, line1, line2) to the library, keyword and positional spelling: the
+# statement speaks of "every combination of arguments", not of one constructor, so each cell of the product goes through
+# all of them and each must take its elements from the same (the statement's) source.
+ENTRY_POINTS = ["Tle_kw", "Tle_pos", "read_kw", "read_pos", "Orbital_kw", "Orbital_pos"]
 # given sources that are configured but yield nothing for the platform ("... no network request is made, even if it yields nothing")
 TF_NOTHING = ["xml_nonav", "xml_without", "path_empty", "path_nameonly", "path_without", "stringio_empty", "stringio_without"]
-TF_KINDS = ["none", "path", "stringio", "xml", "empty"] + TF_NOTHING
+# a given path need not name a regular file: a named pipe (fed by a writer while the call runs) and a symbolic link to a file
+# are read like any file ("else from the given file"); a path that does not exist (or a dangling link) is a configured source
+# that yields nothing
+TF_NOTHING += ["path_missing", "path_dangling"]
+TF_KINDS = ["none", "path", "stringio", "xml", "empty", "path_fifo", "path_symlink"] + TF_NOTHING
+TF_TAG = {"path": "P", "stringio": "S", "xml": "X", "path_fifo": "F", "path_symlink": "K"}
 ORDERS = {"A": ["a", "b", "c"], "B": ["c", "b", "a"], "C": ["a", "c", "b"]}   # creation order; the last is the newest
 # Further TLES values: (kind, pattern, directory/file whose elements the statement requires | None = matches nothing).
 # {W} is the experiment's directory (absolute spelling); a pattern without it is RELATIVE to the child's working directory.
@@ -147,7 +171,21 @@ CFG_SPECS = [
     ("relnested_without", "./conf/without/", False, ""),
     ("rel_missing", "cfg_no_such_dir", False, ""),
     ("dot_without", ".", False, ""),
+    # the directory holds a platforms.txt whose CONTENT is at an edge of the file format: the registry is that file's content
+    ("file_empty", "{W}/cfg_empty", True, ""),                 # zero bytes: a registry without platforms
+    ("file_comment", "{W}/cfg_comment", True, ""),             # comment lines only
+    ("file_blank", "cfg_blank", True, ""),                     # blank lines only
+    ("file_nonl", "{W}/cfg_nonl", True, ""),                   # one entry, no newline at the end of the file
+    ("file_crlf", "./cfg_crlf", True, ""),                     # CRLF line ends
 ]
+# registry files of the kinds above; the expected registry is parse_registry_file of what is written here
+REGISTRY_FILES = {"cfg_empty": "", "cfg_comment": "# platforms of this installation\n#NOAA-19 33591\n# (none yet)\n",
+                  "cfg_blank": "\n\n   \n\t\n\n", "cfg_nonl": "NOAA-19 33591",
+                  "cfg_crlf": "# custom registry\r\nNOAA-19 33591\r\nPVSAT 99001\r\n"}
+# children of these kinds run a reduced product that does not need the platform's catalogue number (sources with name lines)
+CFG_REDUCED = ["file_empty", "file_comment", "file_blank", "file_nonl", "file_crlf"]
+REDUCED = {"lines_kinds": LINES_KINDS, "tf_kinds": ["none", "path", "stringio", "path_symlink", "path_missing", "stringio_without"],
+           "tles_kinds": ["unset", "B", "nothing", "H_rel"], "extras": [("none", "none", "W"), ("l1", "path_empty", "Tie")]}
 CFG_KINDS = [k for k, _, _, _ in CFG_SPECS]
 CFG_HOLDS = {k: h for k, _, h, _ in CFG_SPECS}
 # nodir: PPP_CONFIG_DIR is set to a directory that does not exist; rel: a relative spelling of the directory holding its own file
@@ -218,6 +256,12 @@ def prepare(work):
         f.write("NOAA-19 33591\nPPPSAT 99002\n")
     with open(os.path.join(work, "cfg_without", "other.cfg"), "w") as f:      # the directory is in use, for something else
         f.write("[section]\nkey = value\n")
+    for d, text in sorted(REGISTRY_FILES.items()):
+        os.makedirs(os.path.join(work, d))
+        with open(os.path.join(work, d, "platforms.txt"), "w", newline="") as f:
+            f.write(text)
+        if os.path.getsize(os.path.join(work, d, "platforms.txt")) != len(text.encode()):
+            raise RuntimeError("C16 harness: registry file %s was not written byte for byte" % d)
     spec["cfg"] = {"withfile": os.path.join(work, "cfg_with"), "without": os.path.join(work, "cfg_without"),
                    "missing": os.path.join(work, "cfg_no_such_dir"),
                    "ppp": os.path.join(work, "ppp"), "ppp_nodir": os.path.join(work, "ppp_no_such_dir")}
@@ -229,6 +273,8 @@ def prepare(work):
                                  "spelled": value, "cwd_spelled": "{W}/" + cwd if cwd else "{W}"}
         if v is not None and os.path.isfile(os.path.join(spec["cfg_env"][kind]["cwd"], v, "platforms.txt")) != holds:
             raise RuntimeError("C16 harness: PYORBITAL_CONFIG_PATH kind %s is not what its table line says" % kind)
+        if holds:   # "the registry comes from PYORBITAL_CONFIG_PATH": the content of THAT file
+            spec["cfg_env"][kind]["registry"] = parse_registry_file(os.path.join(spec["cfg_env"][kind]["cwd"], v, "platforms.txt"))
     p = os.path.join(work, "given.tle")
     with open(p, "w") as f:
         f.write(collection(*tagged(TAGS["P"])))
@@ -258,6 +304,21 @@ def prepare(work):
     with open(pn, "w") as f:
         f.write(PLATFORM + "\n")
     spec["given"]["path_nameonly"] = pn
+    # given paths that are not regular files
+    os.makedirs(os.path.join(work, "targets"))
+    with open(os.path.join(work, "targets", "linked.tle"), "w") as f:
+        f.write(collection(*tagged(TAGS["K"])))
+    os.symlink(os.path.join("targets", "linked.tle"), os.path.join(work, "given_link.tle"))       # relative to the link
+    spec["given"]["path_symlink"] = os.path.join(work, "given_link.tle")
+    os.symlink(os.path.join("targets", "removed.tle"), os.path.join(work, "given_dangling.tle"))
+    spec["given"]["path_dangling"] = os.path.join(work, "given_dangling.tle")
+    spec["given"]["path_missing"] = os.path.join(work, "no_such_dir", "given_missing.tle")
+    for k, regular, exists in (("path_symlink", True, True), ("path_dangling", False, False), ("path_missing", False, False)):
+        g = spec["given"][k]
+        if os.path.isfile(g) != regular or os.path.exists(g) != exists or (k != "path_missing") != os.path.islink(g):
+            raise RuntimeError("C16 harness: given path kind %s is not what its name says" % k)
+    # the named pipe is made by each child for itself (children run side by side); what its writer sends:
+    spec["fifo_text"] = collection(*tagged(TAGS["F"]))
     spec["stringio"] = {"stringio": collection(*tagged(TAGS["S"])), "stringio_without": collection("", "", with_platform=False),
                         "stringio_empty": ""}
     spec["stringio_text"] = collection(*tagged(TAGS["S"]))
@@ -336,8 +397,63 @@ def prepare(work):
 
 
 # ------------------------------------------------------------------ child: runs inside a fresh interpreter
-def child_main(spec_path):
+class _PipeFeeder(object):
+    """Writer side of a named pipe: while armed, it waits for a reader to open the pipe, sends the text once and closes
+    (what `producer > pipe` does).  It never blocks itself (non-blocking open, retried), so a call that does not open the
+    pipe at all leaves nothing hanging; should the pipe be opened again more than two seconds after it was served, it is
+    served again rather than left to block for ever."""
+
+    def __init__(self, path, data):
+        import threading
+        self.path, self.data = path, data
+        self.armed = threading.Event()
+        self.quit = False
+        self.idle = threading.Event()
+        self.idle.set()
+        self.served = 0
+        self.thread = threading.Thread(target=self._run, daemon=True)
+        self.thread.start()
+
+    def _run(self):
+        while not self.quit:
+            if not self.armed.wait(0.2):
+                continue
+            self.idle.clear()
+            last = None
+            while self.armed.is_set() and not self.quit:
+                if last is not None and time.monotonic() - last < 2.0:
+                    time.sleep(0.001)
+                    continue
+                try:
+                    fd = os.open(self.path, os.O_WRONLY | os.O_NONBLOCK)
+                except OSError:          # ENXIO: nobody has the pipe open for reading (yet)
+                    time.sleep(0.0003)
+                    continue
+                try:
+                    os.write(fd, self.data)
+                except OSError:          # the reader went away before the text was sent
+                    pass
+                finally:
+                    os.close(fd)
+                self.served += 1
+                last = time.monotonic()
+            self.idle.set()
+
+    def arm(self):
+        self.idle.wait()
+        self.served = 0
+        self.armed.set()
+
+    def disarm(self):
+        self.armed.clear()
+        self.idle.wait()
+        return self.served
+
+
+def child_main(spec_path, cfg_kind=None):
     spec = json.load(open(spec_path))
+    if cfg_kind in spec.get("cfg_reduced", []):
+        spec.update(spec["reduced"])
     repo = spec["repo"]
     while repo in sys.path:
         sys.path.remove(repo)
@@ -363,6 +479,11 @@ def child_main(spec_path):
         return
     sys.stdout.write("\n@@C16-STAGE@@imported\n")
     sys.stdout.flush()
+    try:
+        from pyorbital.orbital import Orbital
+        orbital_import_error = None
+    except Exception as e:  # noqa   (reported by every cell that goes through Orbital)
+        Orbital, orbital_import_error = None, e
 
     def attempt(f):
         try:
@@ -412,7 +533,35 @@ def child_main(spec_path):
     up_to_work = os.path.relpath(os.path.realpath(spec["work"]), os.path.realpath(os.getcwd()))
     up_to_work = "" if up_to_work == "." else up_to_work
 
-    def run_case(lines, tf_kind, tles_kind, tf_override=None):
+    # this child's own named pipe (children run side by side) and its writer
+    pipe_dir = tempfile.mkdtemp(prefix="pipe-", dir=spec["work"])
+    pipe_path = os.path.join(pipe_dir, "given_pipe.tle")
+    os.mkfifo(pipe_path)
+    spec["given"]["path_fifo"] = pipe_path
+    out["given_override"] = {"path_fifo": pipe_path}
+    feeder = _PipeFeeder(pipe_path, spec["fifo_text"].encode("utf-8"))
+    platform = spec["platform"]
+
+    def call(entry, kw):
+        """One public entry point with the cell's arguments, keyword or positional spelling -> the Tle it holds."""
+        pos = (platform, kw.get("tle_file"), kw.get("line1"), kw.get("line2"))
+        if entry == "Tle_kw":
+            return tlefile.Tle(platform, **kw)
+        if entry == "Tle_pos":
+            return tlefile.Tle(*pos)
+        if entry == "read_kw":
+            return tlefile.read(platform, **kw)
+        if entry == "read_pos":
+            return tlefile.read(*pos)
+        if Orbital is None:
+            raise orbital_import_error
+        if entry == "Orbital_kw":
+            return Orbital(platform, **kw).tle
+        if entry == "Orbital_pos":
+            return Orbital(*pos).tle
+        raise RuntimeError("unknown entry point %r" % (entry,))
+
+    def run_entry(entry, lines, tf_kind, globbed):
         kw = {}
         if lines in ("both", "l1"):
             kw["line1"] = L1
@@ -422,33 +571,28 @@ def child_main(spec_path):
         if tf_kind in spec["given"]:
             given = spec["given"][tf_kind]
         elif tf_kind in spec["stringio"]:
-            given = io.StringIO(spec["stringio"][tf_kind])
+            given = io.StringIO(spec["stringio"][tf_kind])       # a fresh stream for every call
         elif tf_kind == "empty":
             given = ""
         elif tf_kind != "none":
             raise RuntimeError("unknown tle_file kind %r" % (tf_kind,))
         if tf_kind != "none":
             kw["tle_file"] = given
-        os.environ.pop("TLES", None)
-        globbed = []
-        if tles_kind == "empty":
-            os.environ["TLES"] = ""
-        elif tles_kind != "unset":
-            pat = spec["tles"][tles_kind]["pattern"]
-            if spec["tles"][tles_kind].get("rel") and up_to_work:
-                pat = os.path.join(up_to_work, pat)       # relative to THIS working directory
-            os.environ["TLES"] = pat
-            globbed = [[p, fbits(os.path.getctime(p))] for p in _glob.glob(os.environ["TLES"])]
         rec.clear()
         net["n"] = 0
         net["urls"] = []
         res = {}
+        if tf_kind == "path_fifo":
+            feeder.arm()
         try:
-            t = tlefile.Tle(spec["platform"], **kw)
+            t = call(entry, kw)
             res["tag"] = tag_of.get((t.line1, t.line2), "?%s|%s" % (t.line1, t.line2))
         except Exception as e:  # noqa  (StopIteration of a truncated entry included)
             res["exc"] = type(e).__name__
             res["msg"] = str(e)[:120]
+        finally:
+            if tf_kind == "path_fifo":
+                feeder.disarm()
         # which source did _get_uris_and_open_func select
         if not rec.get("called"):
             src = "lines" if "tag" in res else "not-called"
@@ -469,14 +613,40 @@ def child_main(spec_path):
                 src = "newest:" + uris[0]
             else:
                 src = "other:%s:%r" % (ofn, [u if isinstance(u, str) else type(u).__name__ for u in uris][:3])
+        return {"res": res, "net": net["n"], "src": src}
+
+    def run_case(lines, tf_kind, tles_kind):
         os.environ.pop("TLES", None)
-        return {"lines": lines, "tf": tf_kind, "tles": tles_kind, "res": res, "net": net["n"], "src": src, "glob": globbed}
+        globbed = []
+        if tles_kind == "empty":
+            os.environ["TLES"] = ""
+        elif tles_kind != "unset":
+            pat = spec["tles"][tles_kind]["pattern"]
+            if spec["tles"][tles_kind].get("rel") and up_to_work:
+                pat = os.path.join(up_to_work, pat)       # relative to THIS working directory
+            os.environ["TLES"] = pat
+            globbed = [[p, fbits(os.path.getctime(p))] for p in _glob.glob(os.environ["TLES"])]
+        # the first entry point (the constructor, keyword spelling) is the one tied to the model; the others are recorded
+        # in full where they differ from it in anything (result, number of requests, selected source)
+        first = run_entry(spec["entry_points"][0], lines, tf_kind, globbed)
+        same, differ = [], {}
+        for entry in spec["entry_points"][1:]:
+            r = run_entry(entry, lines, tf_kind, globbed)
+            if r == first:
+                same.append(entry)
+            else:
+                differ[entry] = r
+        os.environ.pop("TLES", None)
+        return dict(first, lines=lines, tf=tf_kind, tles=tles_kind, glob=globbed, entry=spec["entry_points"][0],
+                    same=same, differ=differ)
 
     for lines in spec["lines_kinds"]:
         for tf in spec["tf_kinds"]:
             for tl in spec["tles_kinds"]:
                 out["cases"].append(run_case(lines, tf, tl))
     out["extras"] = [run_case(lines, tf, tl) for (lines, tf, tl) in spec["extras"]]
+    feeder.quit = True
+    shutil.rmtree(pipe_dir, ignore_errors=True)
     sys.stdout.write("\n@@C16@@" + json.dumps(out) + "\n")
 
 
@@ -505,6 +675,7 @@ def observe(ctx):
     try:
         spec = prepare(work)
         spec["lines_kinds"], spec["tf_kinds"], spec["tles_kinds"], spec["extras"] = LINES_KINDS, TF_KINDS, TLES_KINDS, EXTRAS
+        spec["entry_points"], spec["cfg_reduced"], spec["reduced"] = ENTRY_POINTS, CFG_REDUCED, REDUCED
         spec_path = os.path.join(work, "spec.json")
         json.dump(spec, open(spec_path, "w"))
         jobs = []
@@ -521,11 +692,19 @@ def observe(ctx):
                 elif ppp:
                     env["PPP_CONFIG_DIR"] = spec["cfg"]["ppp_nodir" if ppp == "nodir" else "ppp"]
                 env["PV_REPO"] = lib.REPO
+                # 84 fresh interpreters import numpy/scipy/pyorbital: let them share compiled byte code, kept inside the
+                # experiment's directory (nothing is written next to the sources, /repo included)
+                env.pop("PYTHONDONTWRITEBYTECODE", None)
+                env["PYTHONPYCACHEPREFIX"] = os.path.join(work, "pycache")
+                # numpy's thread pools (one spinning thread per core, started at import) are of no use to 84 interpreters
+                # that run side by side and never multiply a matrix
+                for k in ("OPENBLAS_NUM_THREADS", "OMP_NUM_THREADS", "MKL_NUM_THREADS"):
+                    env.setdefault(k, "1")
                 jobs.append((cfg, ppp, env, cenv["cwd"]))
 
         def run_child(job):
             cfg, ppp, env, cwd = job
-            p = subprocess.run([sys.executable, os.path.abspath(__file__), "--child", spec_path], env=env,
+            p = subprocess.run([sys.executable, os.path.abspath(__file__), "--child", spec_path, cfg], env=env,
                                stdout=subprocess.PIPE, stderr=subprocess.PIPE, cwd=cwd, timeout=600)
             return p.returncode, p.stdout, p.stderr
 
@@ -561,11 +740,14 @@ def observe(ctx):
     return obs
 
 
-def registry_observed(obs, data):
+def registry_observed(obs, data, cfg=None):
+    """Which registry the fresh interpreter loaded; `custom` is the content of the platforms.txt in the directory that
+    PYORBITAL_CONFIG_PATH names in this child's environment."""
     if "import_error" in data:
         return "unavailable"
     sat = data["satellites"]
-    if sat == obs["custom"]:
+    custom = obs["spec"]["cfg_env"].get(cfg, {}).get("registry", obs["custom"])
+    if sat == custom:
         return "custom"
     if sat == obs["packaged"]:
         return "packaged"
@@ -574,8 +756,9 @@ def registry_observed(obs, data):
     return "other(%d entries)" % len(sat)
 
 
-def encode_case(spec, case, cfg, ppp):
+def encode_case(spec, case, cfg, ppp, given=None):
     """Driver line for the model."""
+    given = given or spec["given"]
     l1 = "1" if case["lines"] in ("both", "l1") else "0"
     l2 = "1" if case["lines"] in ("both", "l2") else "0"
     if case["tf"] in ("none", "empty"):
@@ -583,7 +766,7 @@ def encode_case(spec, case, cfg, ppp):
     elif case["tf"] in spec["stringio"]:
         tf = "s"
     else:
-        tf = ("x:" if case["tf"].startswith("xml") else "p:") + lib.s2h(spec["given"][case["tf"]])
+        tf = ("x:" if case["tf"].startswith("xml") else "p:") + lib.s2h(given[case["tf"]])
     if case["tles"] == "unset":
         tl = "u"
     elif case["tles"] == "empty":
@@ -616,7 +799,7 @@ def correspond(ctx):
             continue
         for kind in ("cases", "extras"):
             for case in ch["data"][kind]:
-                lines.append(encode_case(spec, case, ch["cfg"], ch["ppp"]))
+                lines.append(encode_case(spec, case, ch["cfg"], ch["ppp"], dict(spec["given"], **ch["data"].get("given_override", {}))))
                 meta.append((ch, case, kind))
     outs = ctx.driver().run(lines)
     for line, (ch, case, kind), o in zip(lines, meta, outs):
@@ -635,7 +818,7 @@ def correspond(ctx):
         key = {"lines": case["lines"], "tle_file": case["tf"], "TLES": case["tles"], "config_path": ch["cfg"], "ppp": ch["ppp"]}
         if got != msrc:
             ctx.disagree("c16", dict(key, driver=line), got, msrc)
-        greg = registry_observed(obs, ch["data"])
+        greg = registry_observed(obs, ch["data"], ch["cfg"])
         if greg != mreg:
             ctx.disagree("c16-registry", dict(key, driver=line), greg, mreg)
         if len(ctx.samples) < 6 and case["tles"] in ("B", "C") and case["lines"] != "both" and case["tf"] in ("none", "empty"):
@@ -657,8 +840,9 @@ def expected(spec, case):
             tagpath[f["path"]] = f["tag"]
     if case["lines"] == "both":
         return {"L"}, False
-    if case["tf"] in ("path", "stringio", "xml"):
-        return {{"path": "P", "stringio": "S", "xml": "X"}[case["tf"]]}, False
+    if case["tf"] in TF_TAG:
+        # a path (regular file, named pipe, symbolic link to a file), a stream, an admin message: that source and no other
+        return {TF_TAG[case["tf"]]}, False
     if case["tf"] in TF_NOTHING:
         return None, False
     if case["tf"] == "empty":
@@ -679,40 +863,62 @@ def expected(spec, case):
     return {"N"}, True
 
 
-def judge(ctx, obs, ch, case):
+def entries_of(case):
+    """[(entry point, {res, net, src})] of one cell (the child records in full only what differs from the first entry point)."""
+    first = {"res": case["res"], "net": case["net"], "src": case["src"]}
+    out = [(case.get("entry", ENTRY_POINTS[0]), first)]
+    for e in case.get("same", []):
+        out.append((e, first))
+    for e, r in sorted(case.get("differ", {}).items()):
+        out.append((e, r))
+    return out
+
+
+def judge(ctx, obs, ch, case, only_entry=None):
     spec = obs["spec"]
     exp, net_ok = expected(spec, case)
+    ctx.distinct((case["lines"], case["tf"], case["tles"], ch["cfg"], ch["ppp"]))
+    bad = 0
+    for entry, got in entries_of(case):
+        if only_entry is not None and entry != only_entry:
+            continue
+        bad |= judge_entry(ctx, spec, ch, case, entry, got, exp, net_ok)
+    return bad
+
+
+def judge_entry(ctx, spec, ch, case, entry, got, exp, net_ok):
     key = {"lines": case["lines"], "tle_file": case["tf"], "TLES": case["tles"], "config_path": ch["cfg"], "ppp": ch["ppp"],
+           "entry": entry,
            "spelled": dict(ch.get("env", {}), TLES=spec["tles"].get(case["tles"], {}).get("spelled"))}
     ctx.count("eval_oracle")
-    ctx.distinct((case["lines"], case["tf"], case["tles"], ch["cfg"], ch["ppp"]))
     if exp == "skip":
         return 0
     bad = 0
-    res = case["res"]
-    if not net_ok and case["net"] != 0:
-        ctx.violation("network_used_with_local_source", key, "%d network request(s); result %s" % (case["net"], res),
-                      "no network request", site="_get_uris_and_open_func")
+    res = got["res"]
+    site = "_get_uris_and_open_func" if entry.startswith("Tle") else "tlefile.read" if entry.startswith("read") else "Orbital.__init__"
+    if not net_ok and got["net"] != 0:
+        ctx.violation("network_used_with_local_source", key, "%d network request(s); result %s" % (got["net"], res),
+                      "no network request", site=site)
         bad = 1
     if exp is None:
         if "tag" in res:
             ctx.violation("local_yields_nothing_but_elements_returned", key, "elements from %s" % res["tag"],
-                          "an error and no download", site="Tle._read_tle")
+                          "an error and no download", site="Tle._read_tle" if entry.startswith("Tle") else site)
             bad = 1
     else:
         if res.get("tag") not in exp:
             ctx.violation("wrong_source", key, res.get("tag") or "%s: %s" % (res.get("exc"), res.get("msg")),
-                          "elements from " + "/".join(sorted(exp)), site="_get_uris_and_open_func")
+                          "elements from " + "/".join(sorted(exp)), site=site)
             bad = 1
-        if net_ok and case["net"] == 0:
-            ctx.violation("no_download", key, "no request", "download", site="_get_uris_and_open_func")
+        if net_ok and got["net"] == 0:
+            ctx.violation("no_download", key, "no request", "download", site=site)
             bad = 1
     return bad
 
 
 def judge_registry(ctx, obs, ch):
     want = "custom" if CFG_HOLDS[ch["cfg"]] else "packaged"
-    got = registry_observed(obs, ch["data"])
+    got = registry_observed(obs, ch["data"], ch["cfg"])
     ctx.count("eval_oracle_registry")
     if got == "unavailable":
         ctx.violation("registry_unavailable", {"config_path": ch["cfg"], "ppp": ch["ppp"], "spelled": ch.get("env")},
@@ -756,7 +962,7 @@ def replay(ctx, case):
                 rc |= judge_registry(ctx, obs, ch)
                 print("environment:", json.dumps({"PYORBITAL_CONFIG_PATH": ch["cfg"], "PPP_CONFIG_DIR": ch["ppp"],
                                                   "spelled": ch.get("env")}))
-                print("registry:", registry_observed(obs, ch["data"]),
+                print("registry:", registry_observed(obs, ch["data"], ch["cfg"]),
                       ch["data"].get("platforms_filepath") or ch["data"].get("import_error"))
             continue
         if ch["cfg"] != inp.get("config_path") or ch["ppp"] != inp.get("ppp"):
@@ -767,9 +973,11 @@ def replay(ctx, case):
             for c in ch["data"][kind]:
                 if (c["lines"], c["tf"], c["tles"]) == (inp["lines"], inp["tle_file"], inp["TLES"]):
                     print("configuration:", json.dumps(inp))
-                    print("observed: result=%s network_requests=%d selected=%s" % (c["res"], c["net"], c["src"]))
+                    for entry, g in entries_of(c):
+                        if inp.get("entry") in (None, entry):
+                            print("observed (%s): result=%s network_requests=%d selected=%s" % (entry, g["res"], g["net"], g["src"]))
                     print("statement requires:", expected(obs["spec"], c))
-                    rc |= judge(ctx, obs, ch, c)
+                    rc |= judge(ctx, obs, ch, c, only_entry=inp.get("entry"))
     for v in ctx.violations[:5]:
         print("VIOLATES:", v["kind"], "observed:", v["observed"], "required:", v["required"])
     return 1 if rc else 0
@@ -778,3 +986,5 @@ def replay(ctx, case):
 if __name__ == "__main__":
     if len(sys.argv) == 3 and sys.argv[1] == "--child":
         child_main(sys.argv[2])
+    elif len(sys.argv) == 4 and sys.argv[1] == "--child":
+        child_main(sys.argv[2], sys.argv[3])
